@@ -64,6 +64,7 @@ class FleetStore(Store):
         self._weighted_sum = 0.0
         self.time_averaged_num_of_items_in_store = 0.0  # Time-averaged number of items in the store
         self.activate_fleet= self.env.event()  # Event to activate the fleet when items are available
+        self._on_trip = []  # loaded items that have left with a trip; they stay in self.items until they are delivered
         
         self.env.process(self.fleet_activation_process())  # Start the fleet activation process
 
@@ -85,19 +86,21 @@ class FleetStore(Store):
         This process waits for the activate_fleet event to be triggered.
         """
         while True:
-            timeout_event = self.env.timeout(self.delay)
-            event_list= [timeout_event, self.activate_fleet]
+            event_list= [self.activate_fleet]
+            if self.delay > 0:
+                event_list.append(self.env.timeout(self.delay))
             yield self.env.any_of(event_list)
             
             print(f"T={self.env.now:.2f}: Fleet activation process triggered.")
-            
-            if self.items:
-                print(f"T={self.env.now:.2f}: Fleet activated with {len(self.items)} items ready.")
-                self.env.process(self.move_to_ready_items(self.items))
-                #self.env.process(self.move_to_ready_items(self.items))
-                if self.activate_fleet.triggered:
-                    #print("yes")
-                    self.activate_fleet = self.env.event()  # Reset the event for next activation
+            if self.activate_fleet.triggered:
+                self.activate_fleet = self.env.event()  # Reset the event for next activation
+
+            # the fleet leaves with exactly the items that are waiting now; items loaded later wait for the next trip
+            batch = [item for item in self.items if not any(item is gone for gone in self._on_trip)]
+            if batch:
+                print(f"T={self.env.now:.2f}: Fleet activated with {len(batch)} items ready.")
+                self._on_trip.extend(batch)
+                self.env.process(self.move_to_ready_items(batch))
 
     def reserve_put(self, priority=0):
         """
@@ -683,7 +686,7 @@ class FleetStore(Store):
             self.items.append(item)
             self._update_time_averaged_level()
             self._trigger_reserve_get(None)
-            if len(self.items) + len(self.ready_items) == self.capacity:
+            if len(self.items) + len(self.ready_items) == self.capacity or self.delay == 0:
                 #self.activate_fleet = self.env.event()
                 if not self.activate_fleet.triggered:
                     self.activate_fleet.succeed()  # Trigger fleet activation if capacity is reached
@@ -706,8 +709,9 @@ class FleetStore(Store):
             
             for item in items:
                 
-                item_index = self.items.index(item)
-                item_to_put = self.items.pop(item_index)  # Remove the first item
+                item_index = next(i for i, loaded in enumerate(self.items) if loaded is item)
+                item_to_put = self.items.pop(item_index)  # Remove the delivered item
+                self._on_trip.pop(next(i for i, gone in enumerate(self._on_trip) if gone is item))
                
                 if len(self.ready_items) < self.capacity:
                     self.ready_items.append(item_to_put)
